@@ -330,6 +330,16 @@ def run(world, rep, tier, only=None):
                        "a fix_problem()" % n_.line)
     rep.floor("C05.f silently discarded library failures that may be checksum errors", n_sw, 1)
 
+    # ------------------------------------------------------------------ C05.g extent pieces advance in both address spaces
+    # when e2fsck rebuilds an extent tree it cuts runs longer than the on-disk maximum into pieces: every piece starts
+    # where the previous one ended, logically *and* physically
+    pc = paired_cursor_updates([f_ for f_ in lib.functions() if f_.file in ("e2fsck/extents.c", "e2fsck/journal.c", "e2fsck/pass1.c")],
+                               "ext2fs_extent", "e_lblk", "e_pblk")
+    rep.floor("C05.g compound updates of extent start fields in e2fsck", len(pc), 4)
+    for (f_, n_, fld, ok) in pc:
+        rep.ob("C05.g", site(f_, "`%s` moves together with its twin#%d" % (T.pp(n_.ev["lhs"])[:30], _ordn(f_, n_))), ok,
+               "`%s` has the same update of the other start field in the same block" % n_.text()[:40])
+
 
 def _chain_zero(n):
     """`a = b = 0` is reported as a store whose rhs is the inner assignment"""
@@ -350,3 +360,8 @@ def _behind_readonly(prog, G, fn, node, depth=0, seen=()):
     if not sites:
         return False
     return all(_behind_readonly(prog, G, cf, cn, depth + 1, seen + (fn.key,)) for (cf, cn) in sites)
+
+
+def _ordn(fn, n):
+    same = sorted([m for m in fn.events("S") if T.pp(m.ev["lhs"]) == T.pp(n.ev["lhs"])], key=lambda m: (m.line, m.bid, m.idx))
+    return same.index(n)
